@@ -77,3 +77,20 @@ pub proof fn lemma_plain_is_framed(c: Component)
     requires !is_group(c)
     ensures plain(c) =~= pre(c) + core(c) + post(c)
 {}
+
+// ---- Display for Grapheme (grapheme.rs): value, optional group, optional {n} / {m,n}
+pub uninterp spec fn joined(chars: Seq<String>) -> Seq<char>;                 // Vec<String>::join("")
+pub uninterp spec fn joined_shown(gs: Seq<Grapheme>) -> Seq<char>;             // concatenated Display renderings of nested repetitions
+pub uninterp spec fn char_count_spec(g: Grapheme, escaped: bool) -> nat;       // Grapheme::char_count
+pub uninterp spec fn count_char(s: Seq<char>, c: char) -> nat;                 // str::matches(c).count()
+pub open spec fn value_text(g: Grapheme) -> Seq<char> { if g.repetitions@.len() == 0 { joined(g.chars@) } else { joined_shown(g.repetitions@) } }
+// one regex atom: a single code point, or one string holding a single escape sequence (\d, \n, \u{..}); only then may a quantifier follow without a group
+pub open spec fn single_atom(g: Grapheme) -> bool { char_count_spec(g, false) == 1 || (g.chars@.len() == 1 && count_char(g.chars@[0]@, '\\') == 1) }
+pub open spec fn quantified(g: Grapheme) -> bool { g.min < g.max || g.min > 1 }
+pub open spec fn quant_comp(g: Grapheme, verbose: bool) -> Component { if g.min < g.max { Component::RepetitionRange(g.min, g.max, verbose) } else { Component::Repetition(g.min, verbose) } }
+pub open spec fn grapheme_plain(g: Grapheme) -> Seq<char> {
+    let v = value_text(g);
+    if !quantified(g) { v }
+    else if single_atom(g) { v + plain(quant_comp(g, false)) }
+    else { group_plain(group_open(g.is_capturing_group_enabled), v, g.is_verbose_mode_enabled, false) + plain(quant_comp(g, g.is_verbose_mode_enabled)) }
+}
